@@ -577,7 +577,7 @@ func (w *World) peerAddr(i int) unix.Sockaddr {
 		// link-local peers: the zone id is the interface the packet came in on;
 		// index 9 does not exist in the interface table
 		copy(sa.Addr[:], net.ParseIP(fmt.Sprintf("fe80::%x", 2+j)).To16())
-		sa.ZoneId = []uint32{2, 2, 9, 7}[j%4]
+		sa.ZoneId = []uint32{2, 5, 9, 7}[j%4]
 		return sa
 	default:
 		return &unix.SockaddrInet4{Port: 40000 + j, Addr: [4]byte{10, 0, byte(j >> 8), byte(j)}}
